@@ -5,6 +5,8 @@ CONSTANTS
   MaxFails = 2
   MonotoneCursor = TRUE
   RetryOnError = FALSE
+  RestartAtTop = FALSE
+  MaxRestarts = 2
 INVARIANTS CursorAboveBase NothingSkipped
 PROPERTIES AllHandedEventually
 CHECK_DEADLOCK FALSE
